@@ -11,6 +11,41 @@ BASE_NOTE = ("Trusted base: CPython's ast parser, the engines under /verif/sa (p
              "conditions of the property - and not the value-level behaviour; see DESIGN.md for what is not decided.")
 
 CLAIMS = {
+    "C12": dict(
+        text=("Static rules over the listed value types: (R12.1) order-domain evaluation: every rich comparison, compare_to, equals, min and max of the 10 ordered "
+              "types is abstractly evaluated by the interpreter on EVERY component-wise ordering of the type's key atoms (3^n orderings, following delegation chains "
+              "Instant->Duration, LocalDate->calendar compare->packed value) and compared with the total-order specification table; (R12.1b) the Hebrew calculator's "
+              "compare on all 27 orderings of (year, civil month, day); (R12.2-3) __eq__ is a conjunction comparing every stored component of self and other directly "
+              "(no projection that drops a component, e.g. the calendar) and __hash__ reads only compared components; (R12.4) with operands of different calendars every path "
+              "of the ordering methods/min/max raises, comparisons with non-instances return NotImplemented and compare_to raises; (R12.5) no store to a field of a value type "
+              "outside its constructors anywhere in the package. Exhaustive over the abstract order domain; decides the comparison skeleton, not magnitudes."),
+        design_ref="DESIGN.md section 3, C12",
+        technique="static analysis: exhaustive order-domain abstract evaluation of comparison methods + eq/hash field-set and write-site rules",
+    ),
+    "C03": dict(
+        text=("Static rules: (R03.1) range prover (interval abstract interpretation with per-path states, guard inlining, contracts): at every construction site of Duration/Instant/"
+              "_LocalInstant/Offset enumerated by the program model the nanosecond-of-day is proved in [0, 24h) and the day/second count inside the type's range (or guarded), incl. the "
+              "floor-division remainder identities; obligations discharged on the reviewed tree are fail-closed; (R03.3) numeric discipline: no float arithmetic on integer quantities "
+              "not bounded below 2**53 and flooring operators (//, >>, %, divmod) only on operands proved non-negative (where floor == documented truncation). "
+              "Decides normal form / range / rounding-mode clauses on all paths; value-level exactness of relational splits is listed as not decided."),
+        design_ref="DESIGN.md section 3, C03",
+        technique="static analysis: interval abstract interpretation with contracts (range prover) + numeric-discipline rule",
+    ),
+    "C10": dict(
+        text=("Static rules: (R10.1) range prover: every LocalTime construction site (incl. the seven _TimePeriodField unit instances, analysed per instance) yields nanosecond-of-day in "
+              "[0, 24h) - carries are present and exact; (R10.2) every hour/minute/second/sub-second accessor of LocalTime and OffsetTime normalises to NS // unit [% container] with the unit's own "
+              "constant (magic shift/divide pairs are multiplied out) and its range is proved; (R10.5) every public factory constrains each component to its documented range on all returning "
+              "paths; (R10.6) numeric discipline (no float on unbounded amounts, floor only on non-negative operands). Decides carry/range/decomposition structure for every input, not the "
+              "relational identity 'equals adding that many nanoseconds'."),
+        design_ref="DESIGN.md section 3, C10",
+        technique="static analysis: interval abstract interpretation (range prover) + symbolic quotient/remainder normal forms",
+    ),
+    "C11": dict(
+        text=("Static rules: (R11.2) range prover: every OffsetTime construction (OffsetDateTime._ctor from instant+offset, with_offset's double carry, with_time_adjuster, __init__) receives a "
+              "nanosecond-of-day in [0, 24h) and offset seconds within +/-18h, so the carries suffice for every input. More clauses (retention, layout, sign discipline) are being added."),
+        design_ref="DESIGN.md section 3, C11",
+        technique="static analysis: interval abstract interpretation (range prover)",
+    ),
     "C19": dict(
         text=("Static rules over FakeClock/ZonedClock/SystemClock: (R19.1) no call made while the non-reentrant lock is held can reach a method "
               "of the same object that takes it again (all regions x transitive same-object callees); (R19.2) every access to the guarded state "
